@@ -364,6 +364,15 @@ func GenHistory(t *testing.T, r *rand.Rand, prop, tier string, _ *atomic.Int64) 
 				op.Start, op.End = tnext, tnext
 				op.Step = 0
 			}
+			if r.Intn(8) == 0 {
+				// an instant query whose value is a matrix (bare range selector or subquery): the
+				// reference engine evaluates it and owns the point slices it returns
+				op.Q = []string{"m1[90s]", "m2[5m]", "{__name__=~\"m1|m2\"}[2m]", "m1[3m:30s]", "sum(m1)[2m:20s]"}[r.Intn(5)]
+				if op.Step != 0 {
+					op.Start = op.End
+					op.Step = 0
+				}
+			}
 			switch r.Intn(8) {
 			case 0:
 				op.Faults = []store.Fault{{Kind: "cancel", At: 1 + r.Intn(60)}}
